@@ -264,3 +264,29 @@ impl ResponseCodec for NamespaceData {
         Ok(ns_data)
     }
 }
+
+#[cfg(eigerco_lumina_verif)]
+pub(crate) mod verif_hooks {
+    use super::*;
+
+    pub(crate) fn encode_request<T: RequestCodec>(req: &T) -> Vec<u8> {
+        RequestCodec::encode(req)
+    }
+
+    pub(crate) fn decode_request<T: RequestCodec>(raw: &[u8]) -> Result<T> {
+        <T as RequestCodec>::decode(raw)
+    }
+
+    pub(crate) fn encode_response<T: ResponseCodec>(resp: &T) -> Vec<u8> {
+        ResponseCodec::encode(resp)
+    }
+
+    pub(crate) fn decode_and_verify_response<T: ResponseCodec>(
+        raw: &[u8],
+        req: &T::Request,
+        dah: &DataAvailabilityHeader,
+        app_version: AppVersion,
+    ) -> Result<T> {
+        <T as ResponseCodec>::decode_and_verify(raw, req, dah, app_version)
+    }
+}
